@@ -10,6 +10,17 @@ COMMON_NOTE = ("Trusted base: pyvc engine (AST transform T1-T3 of the real sourc
                "lift to C), A3 (integer powers), A4 (path forking via z3), A5 (numpy shim contracts, listed per run in evidence.trusted_base). ")
 
 CLAIMED = {
+    "C09": dict(
+        category="proof",
+        text=("Singlet dispatcher executed on gamma_k = diag(p_k, q_k) with symbolic entries: for LO, decompose-exact/expanded, truncated and "
+              "ordered-truncated the diagonal entries are proved equal to the non-singlet dispatcher of the same method on p resp. q and the "
+              "off-diagonal entries to vanish (sqrt((P-Q)^2) through a sign atom: both branches); iterate-* and perturbative-*: diagonal for any "
+              "iteration count (loop invariant); iterate-*: [0,0] independent of q and [1,1] the same function of q for 1-2 iterations (bounded). "
+              "One known finding (singlet ordered-truncated = truncated kernel) is reported as KNOWN-FINDING."),
+        note=COMMON_NOTE + "Order-4 integrals and cubic roots opaque (both sectors call them with identical arguments). Not claimed: closeness of iterate/perturbative to the closed-form NS kernels; entrywise clause for perturbative-*. Quick tier nf in {3,6}.",
+        technique="contract-based deductive verification: symbolic execution on structured input + exact normal form with sign atoms + loop invariants",
+        design_ref="DESIGN.md section 2, C09",
+    ),
     "C10": dict(
         category="proof",
         text=("(i) K(a0,a0) = 1 for every NS and singlet method x order x nf through the dispatchers (exact order 4 with opaque roots), and for the QED "
